@@ -67,7 +67,7 @@ func Start(store *memstore.Store, pub *Publisher) *Engine {
 		pub = &Publisher{Store: store}
 	}
 	e := &Engine{Store: store, Pub: pub, ctx: quietCtx()}
-	e.Cmd = command.New(store, command.NewDefaultLocker(), command.NewCompiler(1024), command.NewReferencer(), bus.NewLedgerMonitor(pub, "l1"))
+	e.Cmd = command.New(store, command.NewDefaultLocker(), command.NewCompiler(64), command.NewReferencer(), bus.NewLedgerMonitor(pub, "l1"))
 	if err := e.Cmd.Init(e.ctx); err != nil {
 		panic(err)
 	}
